@@ -163,8 +163,17 @@ fn build(p: &Program, order: &[usize]) -> (Library, Vec<Ptr<Instance>>) {
         lib.cells.add(other);
     }
     let mut parent = Layout::new("parent", 0, Outline::rect(10_000, 10_000).unwrap());
+    // one program in four leaves out of the listing an instance that is itself placed relatively and that another instance refers to: it
+    // is part of the cell only through that relation (the placer's dependency order pulls it in; its dependants need it resolved)
+    let hidden: Option<usize> = if p.specs.len() % 4 == 3 {
+        (0..p.specs.len()).find(|j| p.specs[*j].rel.is_some() && p.specs.iter().any(|s| matches!(&s.rel, Some((to, ..)) if to == j)))
+    } else {
+        None
+    };
     for &i in order {
-        parent.instances.push(insts[i].clone());
+        if Some(i) != hidden {
+            parent.instances.push(insts[i].clone());
+        }
     }
     // the same instance object listed a second time, and also entered as a placeable (harmless duplicates that real builders produce)
     if p.specs.len() % 3 == 0 && !order.is_empty() {
